@@ -103,6 +103,9 @@ def main():
         os.makedirs(dst, exist_ok=True)
         shutil.copy(os.path.join(src, "patch.diff"), dst)
         shutil.copy(os.path.join(src, "demo.py"), dst)
+        for extra in os.listdir(src):  # helper modules the demo imports
+            if extra.endswith(".py") and extra != "demo.py":
+                shutil.copy(os.path.join(src, extra), dst)
         meta_out = dict(meta)
         meta_out.update({
             "breaks_property": prop,
